@@ -297,6 +297,23 @@ fn fastq_class(data: &[u8]) -> Option<&'static str> {
         .then_some("fastq-crlf-name-capacity-dependent")
 }
 
+/// VCF: a record line (not a '#' line) with a multi-byte UTF-8 character in one of its first eight
+/// fields — noodles-vcf io/reader/record.rs read_field validates each fill_buf window on its own
+fn vcf_class(data: &[u8]) -> Option<&'static str> {
+    data.split(|&b| b == b'\n')
+        .filter(|l| l.first() != Some(&b'#'))
+        .any(|l| {
+            let mut tabs = 0;
+            l.iter().any(|&b| {
+                if b == b'\t' {
+                    tabs += 1;
+                }
+                tabs < 8 && b >= 0x80
+            })
+        })
+        .then_some("vcf-record-field-utf8-split-capacity-dependent")
+}
+
 fn run_dlv(c: &Case, with_intr: bool) -> Obs {
     let fmt = c.args[0].as_str();
     let seed = c.u(1);
@@ -350,6 +367,7 @@ fn run_dlv(c: &Case, with_intr: bool) -> Obs {
         let tag = match fmt {
             "fasta" | "fastaidx" => fasta_class(&data).map(|s| s.to_string()),
             "fastq" => fastq_class(&data).map(|s| s.to_string()),
+            "vcf" => vcf_class(&data).map(|s| s.to_string()),
             _ => None,
         }
         .unwrap_or_else(|| format!("{fmt}-chunking-dependent"));
@@ -788,6 +806,16 @@ fn generate(rng: &mut Rng, tier: &str, w: &mut CaseWriter) {
         push(w, rng, "fastaidx", f);
     }
     push(w, rng, "fastq", b"@r3\r\nNCG\r\n+\r\n%2O\r\n");
+    // multi-byte UTF-8 text in free-text fields: a character can straddle two fill_buf windows
+    // (vcf: known class vcf-record-field-utf8-split-capacity-dependent)
+    push(w, rng, "vcf", "##fileformat=VCFv4.3\n#CHROM\tPOS\tID\tREF\tALT\tQUAL\tFILTER\tINFO\nsq0\t1\trs\u{e9}\tA\t.\t.\tPASS\t.\n".as_bytes());
+    push(w, rng, "sam", "@HD\tVN:1.6\n@CO\tna\u{ef}ve \u{20ac}\nr\u{e9}\t4\t*\t0\t255\t*\t*\t0\t0\t*\t*\tCO:Z:\u{1f600}\n".as_bytes());
+    push(w, rng, "fasta", ">s\u{e9}q d\u{20ac}\nACGT\n".as_bytes());
+    push(w, rng, "fastaidx", ">s\u{e9}q d\u{20ac}\nACGT\n".as_bytes());
+    push(w, rng, "fastq", "@r\u{e9} d\u{20ac}\nAC\n+\n!!\n".as_bytes());
+    push(w, rng, "gff", "##gff-version 3\nsq0\t.\tgene\t1\t5\t.\t+\t.\tID=g\u{e9};Note=\u{20ac}\n".as_bytes());
+    push(w, rng, "gtf", "sq0\t.\tgene\t1\t5\t.\t+\t.\tgene_id \"g\u{e9}\"; note \"\u{20ac}\";\n".as_bytes());
+    push(w, rng, "bed", "sq0\t1\t5\tn\u{e9}\u{20ac}\n".as_bytes());
     // larger BGZF streams: full 64 KiB blocks (read-into-caller-buffer path, many cuts inside a block)
     for _ in 0..(if thorough { 3 } else { 1 }) {
         let n = rng.range(66000, 140000) as usize;
